@@ -3,6 +3,7 @@
 package main
 
 import (
+	"bytes"
 	"context"
 	"crypto/ecdsa"
 	"crypto/elliptic"
@@ -11,6 +12,8 @@ import (
 	"crypto/x509"
 	"crypto/x509/pkix"
 	"encoding/binary"
+	"encoding/hex"
+	"errors"
 	"fmt"
 	"io"
 	"math/big"
@@ -196,6 +199,302 @@ func serveDoQ16(r *Run, rounds int) {
 		}
 		r.Eval(fmt.Sprintf("doq-server/%d/%d", rd, n), true)
 		r.Count("doq-server:connections")
+		r.Trace()
+	}
+}
+
+// ---- slow handlers and late readers -------------------------------------------------------------------------------
+//
+// ServeDoQ arms one deadline per stream when it accepts the stream (2 s, "avoid fragmentation attack"). It bounds the
+// READ of the query frame. The reply is written whenever the handler is done (mosdns' upstream timeouts are 5 s) and
+// for as long as the client's flow control makes the Write wait. C16 for that direction: once the handler has returned
+// a reply for a well-formed query, what arrives on the stream is that reply as exactly one frame, whatever the handler
+// took and however late the client drains the stream. The streams of this scenario therefore have
+//   - handlers that return after 0 / 0.3-1.5 s / 2.25-2.9 s (beyond the stream deadline),
+//   - replies of up to ~60 KB, on connections whose client grants a stream window of 1-8 KiB only, and
+//   - a client that starts reading its stream 0 / 2.3-2.8 s after it sent the query,
+// all in flight at the same time; the whole scenario runs beside the other scenarios of the check (it is mostly
+// waiting) and is evaluated at the end. The plan is drawn from its own generator (seeded from the run seed) so that it
+// does not disturb the inputs of the other scenarios.
+//
+// Oracle (per stream, only if the handler has returned a reply for the query of that stream AND the stream ended with
+// a clean FIN): the bytes received are exactly one frame, 2-byte length + the reply to that query. Streams that end in
+// an error on the client side (our own generous read deadline, a closed connection) are counted as inconclusive. The
+// same streams are replayed on Model.C16.doqStream (driver op `doq`), which says how many bytes a Write bounded / not
+// bounded by the stream deadline (regenerated fact c16DoqStreamDeadlineReadOnly) delivers.
+
+type slowHandler16 struct {
+	echoHandler16
+	rmu      sync.Mutex
+	returned map[string][]byte // query name -> copy of the reply frame handed back to ServeDoQ
+}
+
+func (h *slowHandler16) Handle(ctx context.Context, q *dns.Msg, meta server.QueryMeta, pack func(m *dns.Msg) (*[]byte, error)) *[]byte {
+	name := ""
+	if len(q.Question) == 1 {
+		name = q.Question[0].Name
+		var n, d int
+		if k, _ := fmt.Sscanf(name, "p%d.d%d.", &n, &d); k == 2 && d > 0 {
+			time.Sleep(time.Duration(d) * time.Millisecond)
+		}
+	}
+	b := h.echoHandler16.Handle(ctx, q, meta, pack)
+	if b != nil && name != "" {
+		h.rmu.Lock()
+		h.returned[name] = append([]byte(nil), *b...)
+		h.rmu.Unlock()
+	}
+	return b
+}
+
+type slowJob16 struct {
+	name      string
+	id        uint16
+	delayMs   int // handler
+	replyPay  int // TXT payload bytes of the reply
+	readAfter int // ms between the end of the query and the client's first Read
+	cut       int
+	seed      int64
+	got       []byte
+	rerr      error
+	openErr   error
+	took      time.Duration
+}
+
+type slowConn16 struct {
+	window  int // client stream receive window, 0 = quic-go default (512 KiB)
+	jobs    []*slowJob16
+	dialErr error
+}
+
+type slowDoQ16 struct {
+	conns    []*slowConn16
+	h        *slowHandler16
+	done     chan struct{}
+	setupErr string
+	maxStall time.Duration
+}
+
+// startSlowDoQ16 plans the scenario and starts it in the background; finishSlowDoQ16 waits for it and judges.
+func startSlowDoQ16(r *Run) *slowDoQ16 {
+	rng := mrand.New(mrand.NewSource(r.Seed*7919 + 1616))
+	sc := &slowDoQ16{h: &slowHandler16{returned: map[string][]byte{}}, done: make(chan struct{})}
+	slow := func() int { return 2250 + rng.Intn(650) }
+	nconn := r.N(2, 6)
+	for ci := 0; ci < nconn; ci++ {
+		c := &slowConn16{}
+		narrow := ci%2 == 1
+		if narrow {
+			c.window = 1024 << rng.Intn(4) // 1, 2, 4, 8 KiB
+		}
+		n := 3 + rng.Intn(3)
+		for i := 0; i < n; i++ {
+			j := &slowJob16{id: uint16(rng.Intn(65536)), cut: rng.Intn(4), seed: rng.Int63()}
+			j.replyPay = []int{0, 1, 100, 480, 1100, 3000}[rng.Intn(6)]
+			switch rng.Intn(3) {
+			case 0:
+				j.delayMs = 300 + rng.Intn(1200)
+			case 1:
+				j.delayMs = slow()
+			}
+			if narrow {
+				switch rng.Intn(4) {
+				case 0, 1: // larger than the window, drained late
+					j.replyPay = 9000 + rng.Intn(40000)
+					j.readAfter = 2300 + rng.Intn(500)
+					if rng.Intn(3) != 0 {
+						j.delayMs = 0
+					}
+				case 2: // larger than the window, drained at once
+					j.replyPay = 9000 + rng.Intn(40000)
+				}
+			}
+			// every connection has at least one stream that is still being served when the stream deadline passes
+			if i == 0 {
+				if narrow {
+					j.replyPay, j.readAfter, j.delayMs = 9000+rng.Intn(40000), 2300+rng.Intn(500), 0
+				} else {
+					j.delayMs = slow()
+				}
+			}
+			j.name = fmt.Sprintf("p%d.d%d.s%d-%d.doq.test.", j.replyPay, j.delayMs, ci, i)
+			c.jobs = append(c.jobs, j)
+		}
+		sc.conns = append(sc.conns, c)
+	}
+	go sc.run()
+	return sc
+}
+
+func (sc *slowDoQ16) run() {
+	defer close(sc.done)
+	meter := startStallMeter()
+	defer func() { sc.maxStall = meter.Stop() }()
+	cert, err := selfSigned16()
+	if err != nil {
+		sc.setupErr = err.Error()
+		return
+	}
+	l, err := quic.ListenAddr("127.0.0.1:0", &tls.Config{Certificates: []tls.Certificate{cert}, NextProtos: []string{"doq"}}, &quic.Config{MaxIdleTimeout: 40 * time.Second})
+	if err != nil {
+		sc.setupErr = "cannot listen: " + err.Error()
+		return
+	}
+	defer l.Close()
+	// IdleTimeout: ServeDoQ closes a connection on which no new stream arrived for that long, served or not
+	go server.ServeDoQ(l, sc.h, server.DoQServerOpts{IdleTimeout: 30 * time.Second})
+	var cwg sync.WaitGroup
+	for _, c := range sc.conns {
+		cwg.Add(1)
+		go func(c *slowConn16) {
+			defer cwg.Done()
+			ctx, cancel := context.WithTimeout(context.Background(), 40*time.Second)
+			defer cancel()
+			conf := &quic.Config{MaxIdleTimeout: 40 * time.Second}
+			if c.window > 0 {
+				conf.InitialStreamReceiveWindow = uint64(c.window)
+				conf.MaxStreamReceiveWindow = uint64(c.window)
+			}
+			qc, err := quic.DialAddr(ctx, l.Addr().String(), &tls.Config{InsecureSkipVerify: true, NextProtos: []string{"doq"}, ServerName: "doq.test"}, conf)
+			if err != nil {
+				c.dialErr = err
+				return
+			}
+			defer qc.CloseWithError(0, "")
+			var wg sync.WaitGroup
+			for _, j := range c.jobs {
+				wg.Add(1)
+				go func(j *slowJob16) {
+					defer wg.Done()
+					t0 := time.Now()
+					defer func() { j.took = time.Since(t0) }()
+					s, err := qc.OpenStreamSync(ctx)
+					if err != nil {
+						j.openErr = err
+						return
+					}
+					q := new(dns.Msg)
+					q.SetQuestion(j.name, dns.TypeTXT)
+					q.Id = j.id
+					p, _ := q.Pack()
+					frame := append([]byte{byte(len(p) >> 8), byte(len(p))}, p...)
+					rnd := mrand.New(mrand.NewSource(j.seed))
+					for rest := frame; len(rest) > 0; {
+						k := len(rest)
+						switch j.cut {
+						case 1:
+							k = 1
+						case 2:
+							if len(rest) == len(frame) {
+								k = 1
+							}
+						case 3:
+							k = 1 + rnd.Intn(len(rest))
+						}
+						if _, err := s.Write(rest[:k]); err != nil {
+							j.openErr = err
+							return
+						}
+						rest = rest[k:]
+						if j.cut != 0 {
+							time.Sleep(time.Duration(rnd.Intn(300)) * time.Microsecond)
+						}
+					}
+					s.Close() // FIN
+					if j.readAfter > 0 {
+						time.Sleep(time.Duration(j.readAfter) * time.Millisecond)
+					}
+					s.SetReadDeadline(time.Now().Add(25 * time.Second))
+					j.got, j.rerr = io.ReadAll(s) // nil error = the server finished the stream (FIN)
+				}(j)
+			}
+			wg.Wait()
+		}(c)
+	}
+	cwg.Wait()
+}
+
+func finishSlowDoQ16(r *Run, sc *slowDoQ16) {
+	<-sc.done
+	if sc.setupErr != "" {
+		r.Note("doq slow-handler / late-reader scenario skipped: " + sc.setupErr)
+		r.Count("doq-slow:skipped")
+		return
+	}
+	const streamDeadlineMs = 2000
+	for _, c := range sc.conns {
+		if c.dialErr != nil {
+			r.Note("doq slow-handler / late-reader scenario: dial failed: " + c.dialErr.Error())
+			r.Count("doq-slow:dial-failed")
+			continue
+		}
+		r.Count("doq-slow:connections")
+		for _, j := range c.jobs {
+			sc.h.rmu.Lock()
+			replyFrame, returned := sc.h.returned[j.name]
+			sc.h.rmu.Unlock()
+			replyLen := len(replyFrame)
+			win := c.window
+			if win == 0 {
+				win = 512 * 1024
+			}
+			desc := map[string]any{"server": "DoQ", "query_name": j.name, "handler_delay_ms": j.delayMs, "reply_frame_bytes": replyLen,
+				"client_stream_window": win, "client_reads_after_ms": j.readAfter, "streams_on_connection": len(c.jobs),
+				"query_frame_cut": []string{"one write", "single bytes", "header split", "random"}[j.cut],
+				"stream_ended": "FIN", "bytes_received": len(j.got), "stream_took_ms": j.took.Milliseconds(), "harness_max_stall_ms": sc.maxStall.Milliseconds()}
+			r.Eval("doq-slow/"+j.name, true)
+			class := "quick"
+			if j.delayMs > streamDeadlineMs {
+				class = "handler-beyond-deadline"
+			} else if j.readAfter > streamDeadlineMs && replyLen > win {
+				class = "write-blocked-beyond-deadline"
+			}
+			r.Count("doq-slow:" + class)
+			if j.openErr != nil || !returned {
+				// the query never got to the handler (e.g. it took the loaded machine more than the 2 s read deadline to
+				// deliver the query frame): nothing was to be transferred on this stream
+				r.Count("doq-slow:inconclusive(query not served)")
+				continue
+			}
+			if j.rerr != nil {
+				var se *quic.StreamError
+				if errors.As(j.rerr, &se) {
+					desc["stream_ended"] = "reset: " + j.rerr.Error()
+				} else {
+					desc["stream_ended"] = "client read error: " + j.rerr.Error()
+				}
+				r.Note(fmt.Sprintf("doq slow-handler / late-reader scenario: stream %s not finished by the server: %v (%d bytes received)", j.name, j.rerr, len(j.got)))
+				r.Count("doq-slow:inconclusive(no FIN)")
+				continue
+			}
+			// replay on the model: credit = the window at once, everything else from the moment the client reads
+			grants := fmt.Sprintf("0:%d,%d:%d", win, j.readAfter, 1<<20)
+			if replyLen > 2 {
+				r.Line(fmt.Sprintf("doq %d %d %s %s", streamDeadlineMs, j.delayMs, grants, hex.EncodeToString(replyFrame[2:])), "delivered "+sum16(j.got))
+			}
+			if len(j.got) < 2 || int(binary.BigEndian.Uint16(j.got))+2 != len(j.got) {
+				if len(j.got) >= 2 {
+					desc["announced_length"] = int(binary.BigEndian.Uint16(j.got))
+				}
+				r.Fail("the handler returned a reply but what the DoQ server transferred on the stream before FIN is not exactly one frame (2-byte length + message): no / a truncated frame", desc)
+				continue
+			}
+			if !bytes.Equal(j.got, replyFrame) {
+				r.Fail("the frame the DoQ server wrote is not the reply the handler returned for that stream", desc)
+				continue
+			}
+			m := new(dns.Msg)
+			if err := m.Unpack(j.got[2:]); err != nil {
+				desc["unpack_error"] = err.Error()
+				r.Fail("the frame the DoQ server wrote does not contain a DNS message", desc)
+				continue
+			}
+			if m.Id != j.id || len(m.Question) != 1 || m.Question[0].Name != j.name || !m.Response {
+				r.Fail("the reply on a DoQ stream is not the reply to the query sent on that stream", desc)
+				continue
+			}
+			r.Count("doq-slow:intact")
+		}
 		r.Trace()
 	}
 }
